@@ -53,6 +53,8 @@ func printItems(items []*bitem) string {
 			sb.WriteString("{% if true %}" + printItems(it.items) + "{% endif %}")
 		case "loop":
 			sb.WriteString("{% for q in \"ab\" %}" + printItems(it.items) + "{% endfor %}")
+		case "with":
+			sb.WriteString("{% with zq=1 %}" + printItems(it.items) + "{% endwith %}")
 		}
 	}
 	return sb.String()
@@ -71,7 +73,12 @@ func refRender(chain []*btpl, items []*bitem, supers [][]*bitem, out *strings.Bu
 			out.WriteString(refQ) // the variable of the loop the block is rendered in (nothing outside a loop)
 		case "super":
 			if len(supers) > 0 {
+				// the parent's definition is rendered in the context the block was entered with: a
+				// loop variable bound inside the overriding definition is not visible in it
+				old := refQ
+				refQ = blockQ
 				refRender(chain, supers[len(supers)-1], supers[:len(supers)-1], out)
+				refQ = old
 			}
 		case "block":
 			var defs [][]*bitem
@@ -80,8 +87,11 @@ func refRender(chain []*btpl, items []*bitem, supers [][]*bitem, out *strings.Bu
 					defs = append(defs, b)
 				}
 			}
+			savedBlockQ := blockQ
+			blockQ = refQ
 			refRender(chain, defs[len(defs)-1], defs[:len(defs)-1], out)
-		case "if":
+			blockQ = savedBlockQ
+		case "if", "with":
 			refRender(chain, it.items, supers, out)
 		case "loop":
 			outer := refQ
@@ -94,7 +104,7 @@ func refRender(chain []*btpl, items []*bitem, supers [][]*bitem, out *strings.Bu
 	}
 }
 
-var refQ string
+var refQ, blockQ string
 
 type c10Gen struct {
 	rg     *rng
@@ -139,6 +149,10 @@ func (g *c10Gen) blockBody(level int, name string, d int, allowSuper bool) []*bi
 	}
 	if allowSuper && g.rg.chance(1, 3) {
 		items = append(items, &bitem{kind: "super"})
+	}
+	if allowSuper && g.rg.chance(1, 4) {
+		// the parent's definition asked for from inside a construct with a scope of its own
+		items = append(items, &bitem{kind: g.rg.pick([]string{"loop", "with", "if"}), items: []*bitem{{kind: "text", text: "["}, {kind: "super"}, {kind: "text", text: "]"}}})
 	}
 	return items
 }
@@ -366,7 +380,16 @@ func execC10Shared(r *run, c caseT) {
 			}
 		}
 		for round := 0; round < 2 && failed == ""; round++ {
+			if round == 1 {
+				// the most derived template is rendered with the block options switched on (for
+				// itself): what its ancestors render when asked directly does not change
+				tpls[0].Options.TrimBlocks, tpls[0].Options.LStripBlocks = true, true
+				_, _ = tpls[0].Execute(nil)
+			}
 			for _, i := range order {
+				if round == 1 && i == 0 {
+					continue
+				}
 				out, err := tpls[i].Execute(nil)
 				if err != nil {
 					failed = "execution error: " + err.Error()
